@@ -88,7 +88,8 @@ func caseLine(n0 int, toks []tok) string {
 
 // vlist reduces raw numbers modulo n and drops repeats after the first.
 func vlist(raw []int, n int) []int {
-	r := []int{}
+	// spare capacity: a callee that kept the slice and appended to it would write here
+	r := make([]int, 0, len(raw)+3)
 	if n == 0 {
 		return r
 	}
@@ -101,6 +102,20 @@ func vlist(raw []int, n int) []int {
 		}
 	}
 	return r
+}
+
+// scribble overwrites a caller-owned argument slice up to its capacity: with -1 in the spare
+// capacity (an index panic or a visible vertex if the callee kept the slice) and 0 in the part
+// that was passed.
+func scribble(a []int) {
+	full := a[:cap(a)]
+	for i := range full {
+		if i < len(a) {
+			full[i] = 0
+		} else {
+			full[i] = -1
+		}
+	}
 }
 
 // dump prints all observers of g: n/m/degrees/IsEdge rows (bit masks, every ordered pair
@@ -157,16 +172,13 @@ func apply(st []graph.EditableGraph, t tok) ([]graph.EditableGraph, bool) {
 			interesting = true
 		}
 		g.AddVertex(nb)
-		// the argument slice belongs to the caller: overwrite it after the call
-		for i := range nb {
-			nb[i] = 0
-		}
+		// the argument slice belongs to the caller: overwrite it (and its spare capacity)
+		// after the call
+		scribble(nb)
 	case 's':
 		V := vlist(t.args, n)
 		created = g.InducedSubgraph(V)
-		for i := range V {
-			V[i] = 0
-		}
+		scribble(V)
 	case 'c':
 		created = g.Copy()
 	default:
